@@ -249,13 +249,20 @@ func Run(t *rapid.T, cfg Config) {
 		// a whole committee term
 		span = int(prof.DutyPeriod) + 12
 	}
-	maxHeight := last + uint32(rapid.IntRange(4, span).Draw(t, "maxheight"))
+	lo := 4
+	if cfg.Side == CR {
+		lo = span / 2
+	}
+	maxHeight := last + uint32(rapid.IntRange(lo, span).Draw(t, "maxheight"))
 	if vk.Thorough() {
-		maxHeight = last + uint32(rapid.IntRange(4, span+20).Draw(t, "maxheight2"))
+		maxHeight = last + uint32(rapid.IntRange(lo, span+20).Draw(t, "maxheight2"))
 	}
 	// first block at VoteStart: after it the lowest rollback target exists
 	r.advance(1)
 	nops := rapid.IntRange(6, 30).Draw(t, "nops")
+	if cfg.Side == CR {
+		nops += 10
+	}
 	for op := 0; op < nops; op++ {
 		if r.k.Height >= maxHeight || r.dead != "" {
 			break
